@@ -405,5 +405,80 @@ class PerFamilyBits(Part):
         return res
 
 
+class DumpWithFailingFile(Part):
+    name = "dump_of_a_run_in_which_a_file_fails"
+    desc = ("a tree of three files with their own addresses (both families) of which none / the first / the middle / the last "
+            "fails (output path occupied by a directory, undecodable input), both walk orders, main and anonymize_files, host "
+            "bits 0 and 8: every address replaced in a file that was written has its line in the map, with that replacement")
+
+    NAMES = ["a.cfg", "m/b.cfg", "z/c.cfg"]
+
+    def __init__(self, tier, seed):
+        self.tier, self.seed = tier, seed
+
+    def cases(self):
+        return [{"fail": f, "kind": k, "entry": e, "reverse": r, "B": B}
+                for f in (None, 0, 1, 2) for k in (("outdir", "bytes") if f is not None else ("none",))
+                for e in ("anonymize_files", "main") for r in (False, True) for B in (0, 8)]
+
+    def run(self, case):
+        from netconan.anonymize_files import anonymize_files
+        from netconan.netconan import main
+
+        res = Res()
+        root = seams.scratch_dir("c17f")
+        try:
+            ind, outd, mp = os.path.join(root, "in"), os.path.join(root, "out"), os.path.join(root, "map.txt")
+            addrs = {n: ["11.%d.33.44" % (20 + i), "55.66.%d.88" % (70 + i), "2001:db8:%d::7" % (i + 1), "99.1.2.3"] for i, n in enumerate(self.NAMES)}
+            files = {n: "".join("peer %s up\n" % a for a in addrs[n]) for n in self.NAMES}
+            if case["kind"] == "bytes":
+                files[self.NAMES[case["fail"]]] = b"peer 11.99.33.44 up\n\xff\xfe\xfa broken\n"
+            seams.write_tree(ind, files)
+            os.makedirs(outd)
+            if case["kind"] == "outdir":
+                os.makedirs(os.path.join(outd, self.NAMES[case["fail"]]))
+            with seams.capture_logs(), seams.capture_stdio(), seams.walk_order(lambda n: n, reverse=case["reverse"]):
+                try:
+                    if case["entry"] == "anonymize_files":
+                        anonymize_files(ind, outd, False, True, salt="saltForTest", dumpfile=mp, preserve_suffix_v4=case["B"], preserve_suffix_v6=case["B"])
+                    else:
+                        main(["-a", "-s", "saltForTest", "--preserve-host-bits", str(case["B"]), "-i", ind, "-o", outd, "-d", mp])
+                except SystemExit:
+                    pass
+            seams.restore_globals()
+            res.evals += 1
+            try:
+                with open(mp) as fh:
+                    mapping = dict(ln.split("\t") for ln in fh.read().splitlines() if "\t" in ln)
+            except OSError:
+                res.violation("no-dump-file|with-failing-file", "%r" % (case,), case)
+                return res
+            mapping = {str(ipaddress.ip_address(k)): str(ipaddress.ip_address(v)) for k, v in mapping.items()}
+            tree = seams.read_tree(outd)
+            n_checked = 0
+            for n in self.NAMES:
+                data = tree.get(n)
+                if data is None or (case["fail"] is not None and n == self.NAMES[case["fail"]]):
+                    continue
+                got = data.decode().splitlines()
+                for a, g in zip(addrs[n], got):
+                    u = g.split()[1]
+                    a_, u_ = str(ipaddress.ip_address(a)), str(ipaddress.ip_address(u))
+                    if a_ == u_:
+                        continue
+                    n_checked += 1
+                    if mapping.get(a_) != u_:
+                        res.violation("dump-misses-or-contradicts-replaced-address|with-failing-file",
+                                      "%r: %s was written as %s in %s, the map says %r" % (case, a_, u_, n, mapping.get(a_)), case)
+                        return res
+            res.nt(tuple(sorted((k, str(v)) for k, v in case.items())))
+            res.out((n_checked, len(mapping)))
+            res.count("replaced_addresses_checked", n_checked)
+        finally:
+            shutil.rmtree(root, ignore_errors=True)
+        res.samples.append(case)
+        return res
+
+
 def parts(tier, seed):
-    return [GraphPart(tier, seed), FilePart(tier, seed), LongRun(tier, seed), AfterOtherJobs(tier, seed), PerFamilyBits(tier, seed)]
+    return [GraphPart(tier, seed), FilePart(tier, seed), LongRun(tier, seed), AfterOtherJobs(tier, seed), PerFamilyBits(tier, seed), DumpWithFailingFile(tier, seed)]
